@@ -350,3 +350,23 @@ h_storage_table_lifecycle(void)
     VCOVER(st == 0 && !IS_STO_ID(kind), "camera id is not a storage device");
     H_END;
 }
+
+/* The driver object handed to the device manager: enumeration and opening go through ITS
+ * function pointers, so the entry points must be the functions the contracts above are
+ * enforced on, and device_count must be exactly the number of ids describe accepts. */
+void
+h_basics_driver_init(void)
+{
+    struct Driver* d = acquire_driver_init_v0(0);
+    if (d) {
+        VASSERT(d->device_count == basic_device_count && d->describe == basic_device_describe &&
+                  d->open == basic_device_open && d->close == basic_device_close &&
+                  d->shutdown == basic_device_shutdown_driver,
+                "[C12.driver-wiring] the driver object exposes exactly the contracted entry points");
+        VASSERT(basic_device_count(d) == BasicDeviceKindCount,
+                "[C12.enumeration-table] device_count is the number of ids describe accepts: every documented device is enumerated, no undescribable id is");
+        free(d);
+    }
+    VCOVER(d != 0, "driver created");
+    H_END;
+}
